@@ -115,45 +115,7 @@ func checkC02(R *Run) {
 	R.rule("single-buffered-reader", "per connection entry point at most one buffering reader (bufio.Scanner / bufio.Reader) wraps the connection (also through helpers that are handed the connection), and no raw read of the connection is dominated by its creation: a second reader never sees what the first one buffered")
 	R.ruleSingleBufferedReader()
 	R.floor("single-buffered-reader", 2)
-	dec := P.positionalDecoders()
-	var decNames []string
-	for n := range dec {
-		decNames = append(decNames, n)
-	}
-	sort.Strings(decNames)
-	R.note("positional frame decoders: " + strings.Join(decNames, ", ") + ".")
-	if len(dec) < 10 {
-		R.bad("frame-feed", "decoder inventory", "-", fmt.Sprintf("only %d positional decoders recognised (%v); 10 were confirmed on the reference tree", len(dec), decNames))
-	}
-	nFeed := 0
-	for _, fn := range P.Funcs {
-		for _, ci := range callsIn(fn) {
-			c := ci.Common()
-			name := calleeName(c)
-			var dst, src ssa.Value
-			switch name {
-			case "io.Copy", "io.CopyN", "io.CopyBuffer":
-				dst, src = c.Args[0], c.Args[1]
-			case "io.TeeReader":
-				dst, src = c.Args[1], c.Args[0]
-			default:
-				continue
-			}
-			dt, _ := concreteBelowInterface(dst)
-			dname := typeName(derefType(dt))
-			if _, isDec := dec[dname]; !isDec {
-				continue
-			}
-			nFeed++
-			R.analysed(fname(fn))
-			st, sv := concreteBelowInterface(src)
-			construct := fmt.Sprintf("%s: %s into %s #%d", fname(fn), name, dname, nCreateIn(fn, ci))
-			R.check(isWholeBufferReader(st), "frame-feed", construct, P.ipos(ci),
-				"source is "+typeName(st)+" (hands over the whole frame in one Write)",
-				fmt.Sprintf("positional decoder %s is fed by %s from a %s (%s): each Write receives whatever one read of the stream returned, so a frame split across TCP segments is rejected or mis-parsed", dname, name, typeName(st), P.sym(sv)))
-		}
-	}
-	R.floor("frame-feed", 2)
+	R.ruleFrameFeed()
 
 	// server-side call tree
 	var roots []*ssa.Function
@@ -505,4 +467,49 @@ func isWholeSlice(v ssa.Value) bool {
 		return s.Low == nil && s.High == nil
 	}
 	return true
+}
+
+// ruleFrameFeed (C02, shared with C01: "decoding those bytes yields the original object" needs the decoder to see
+// the whole frame).
+func (R *Run) ruleFrameFeed() {
+	P := R.P
+	dec := P.positionalDecoders()
+	var decNames []string
+	for n := range dec {
+		decNames = append(decNames, n)
+	}
+	sort.Strings(decNames)
+	R.note("positional frame decoders: " + strings.Join(decNames, ", ") + ".")
+	if len(dec) < 10 {
+		R.bad("frame-feed", "decoder inventory", "-", fmt.Sprintf("only %d positional decoders recognised (%v); 10 were confirmed on the reference tree", len(dec), decNames))
+	}
+	nFeed := 0
+	for _, fn := range P.Funcs {
+		for _, ci := range callsIn(fn) {
+			c := ci.Common()
+			name := calleeName(c)
+			var dst, src ssa.Value
+			switch name {
+			case "io.Copy", "io.CopyN", "io.CopyBuffer":
+				dst, src = c.Args[0], c.Args[1]
+			case "io.TeeReader":
+				dst, src = c.Args[1], c.Args[0]
+			default:
+				continue
+			}
+			dt, _ := concreteBelowInterface(dst)
+			dname := typeName(derefType(dt))
+			if _, isDec := dec[dname]; !isDec {
+				continue
+			}
+			nFeed++
+			R.analysed(fname(fn))
+			st, sv := concreteBelowInterface(src)
+			construct := fmt.Sprintf("%s: %s into %s #%d", fname(fn), name, dname, nCreateIn(fn, ci))
+			R.check(isWholeBufferReader(st), "frame-feed", construct, P.ipos(ci),
+				"source is "+typeName(st)+" (hands over the whole frame in one Write)",
+				fmt.Sprintf("positional decoder %s is fed by %s from a %s (%s): each Write receives whatever one read of the stream returned, so a frame split across TCP segments is rejected or mis-parsed", dname, name, typeName(st), P.sym(sv)))
+		}
+	}
+	R.floor("frame-feed", 2)
 }
